@@ -8,6 +8,19 @@ REPLAYS = os.path.join(ROOT, "replays")
 VENV_PY = "/venv/bin/python"
 
 
+_TMP = []
+
+
+def mktempdir(prefix):
+    """temporary directory removed at process exit"""
+    import tempfile, atexit, shutil
+    d = tempfile.mkdtemp(prefix=prefix)
+    if not _TMP:
+        atexit.register(lambda: [shutil.rmtree(x, ignore_errors=True) for x in _TMP])
+    _TMP.append(d)
+    return d
+
+
 def load_known():
     p = os.path.join(ROOT, "known_findings.json")
     if not os.path.exists(p):
